@@ -180,6 +180,33 @@ def verus_replay(prop, v, scratch):
     v["reproduced"] = True if found else None
 
 
+def probe_standin(prop, unit_name, scratch, reason, always=False):
+    """Bounded stand-in (never counted as proved): when a Verus unit cannot decide (changed structure,
+    unsupported construct) the unit's replay probe evaluates the same postconditions on its grid of concrete
+    inputs against the real code.  A failing input is a genuine violation with a real replay."""
+    from . import probes
+    fn = probes.probe_for_unit(unit_name)
+    if fn is None:
+        return None, None
+    found, pout = probes.run_probe(prop, "", scratch, only_file=fn)
+    ob = {"engine": "probe-bounded", "unit": unit_name, "name": "probe:%s" % fn[:-3], "fn": unit_name, "kind": "bounded",
+          "bound": probes.probe_bound(fn), "status": "undecided" if found is None else ("failed" if found else "discharged"),
+          "backend": "rustc test on the real code", "text": "bounded stand-in for unit %s (%s)" % (unit_name, reason)}
+    viol = None
+    if found:
+        os.makedirs(REPLAYS, exist_ok=True)
+        rp = os.path.join(REPLAYS, "%s-probe_%s.txt" % (prop, fn[:-3]))
+        with open(rp, "w") as f:
+            f.write("replay for property %s\nfailed obligation: %s (bounded stand-in; the deductive unit %s was undecided: %s)\n"
+                    "probe source: overlay/probes/%s (appended to the real source file and run with cargo test)\n\n---- failing inputs on the real code ----\n%s\n"
+                    % (prop, ob["name"], unit_name, reason, fn, pout))
+        viol = {"ob": ob, "desc": "probe found failing input", "replay": rp, "reproduced": True}
+        kf = _registry().known_finding_for(prop, ob["name"])
+        if kf is not None:
+            viol["known"] = kf
+    return ob, viol
+
+
 # ------------------------------------------------------------------------------------------
 def check(prop, tier, seed, only=None):
     t0 = time.time()
